@@ -297,3 +297,17 @@ def clone_cores(cores):
             seen[id(c)] = np.array(c, copy=True)
         out.append(seen[id(c)])
     return out
+
+
+def data_matrix(rng, shape, lim=1.5):
+    """snapshot data: mostly scattered floats; sometimes lattice data (multiples of 1/2 incl. exactly 0, where odd basis functions
+    vanish while their derivatives do not, and snapshots coincide), sometimes scattered data with a few exact zeros"""
+    u = rng.random()
+    x = rng.uniform(-lim, lim, size=shape)
+    if u < 0.04:
+        return rng.integers(-2, 3, size=shape)  # integer-typed data (grid indices, counts) stored as int64
+    if u < 0.12:
+        x = rng.integers(-2, 3, size=shape) * 0.5
+    elif u < 0.2:
+        x = np.where(rng.random(shape) < 0.3, 0.0, x)
+    return np.asarray(x, dtype=float)
